@@ -15,6 +15,9 @@ try:
         name = os.path.basename(d); pid = name.split("-")[0]
         if want and pid not in want and name not in want and not any(name.endswith(w) for w in want if w.startswith("-")):
             continue
+        meta = json.load(open(d + "/meta.json"))
+        if str(meta.get("status", "")).startswith("neutralised"):
+            matrix[name] = dict(status="neutralised-by-a-fix (not a violation any more)"); continue
         r = subprocess.run(["git", "-C", wt, "apply", os.path.abspath(d + "/patch.diff")], capture_output=True, text=True)
         if r.returncode:
             matrix[name] = dict(status="patch-does-not-apply", err=r.stderr[-300:]); print(name, "APPLY-FAIL"); continue
@@ -31,6 +34,10 @@ try:
         tail = [l[:300] for l in out.splitlines() if "INCONCLUSIVE" in l or "-> exit" in l][-3:]
         matrix[name] = dict(check=pid, tier="quick", exit=rc, violations=nviol, labels=labels[:8], units=units[:8], wall_s=round(time.time() - t0, 1), tail=tail)
         print(name, "exit", rc, "violations", nviol, labels[:3], "%.0fs" % (time.time() - t0), flush=True)
+        if os.environ.get("RECORD_META"):
+            meta["detected_by"] = dict(check="./check %s --tier quick" % pid, exit=rc, violation_lines=nviol, labels=labels[:8], units=units[:8],
+                                       applied_to="scratch git worktree of /repo HEAD (VERIF_REPO_SRC)") if rc == 1 and nviol else None
+            json.dump(meta, open(d + "/meta.json", "w"), indent=1)
         json.dump(matrix, open(outf, "w"), indent=1, sort_keys=True)
 finally:
     subprocess.run(["git", "-C", "/repo", "worktree", "remove", "--force", wt])
